@@ -291,6 +291,32 @@ func (e *c16sEnv) createStream(occ bool) (*partition, *c16sLog, string) {
 	if occ {
 		req.OptimisticConcurrencyControl = &client.NullableBool{Value: true}
 	}
+	// concurrency control requested TOGETHER WITH other per-stream settings (each stream of the run another combination):
+	// every setting travels through the same request -> config -> partition path, none may displace another
+	combo := e.seq
+	var with []string
+	if combo&1 != 0 {
+		req.MinIsr = &client.NullableInt32{Value: 1}
+		with = append(with, "MinIsr=1")
+	}
+	if combo&2 != 0 {
+		req.RetentionMaxMessages = &client.NullableInt64{Value: 1 << 40}
+		with = append(with, "RetentionMaxMessages")
+	}
+	if combo&4 != 0 {
+		req.CompactEnabled = &client.NullableBool{Value: false}
+		with = append(with, "CompactEnabled=false")
+	}
+	if combo&8 != 0 {
+		req.SegmentMaxBytes = &client.NullableInt64{Value: 1 << 26}
+		with = append(with, "SegmentMaxBytes")
+	}
+	if combo&16 != 0 {
+		req.AutoPauseTime = &client.NullableInt64{Value: 0}
+		req.AutoPauseDisableIfSubscribers = &client.NullableBool{Value: false}
+		with = append(with, "AutoPause")
+	}
+	e.res.Dist(fmt.Sprintf("stream-settings:occ=%v+%d-others", occ, len(with)))
 	if err := vCreateStream(e.s, req); err != nil {
 		e.t.Fatalf("create stream: %v", err)
 	}
@@ -309,7 +335,9 @@ func (e *c16sEnv) createStream(occ bool) (*partition, *c16sLog, string) {
 		time.Sleep(2 * time.Millisecond)
 	}
 	if p.log.IsConcurrencyControlEnabled() != occ {
-		e.t.Fatalf("stream %s: concurrency control = %v, want %v", name, p.log.IsConcurrencyControlEnabled(), occ)
+		line := fmt.Sprintf("create stream occ=%v with %v", occ, with)
+		e.res.Fail(vFailure{Kind: "spec", Case: []string{line}, Detail: fmt.Sprintf("a stream created with OptimisticConcurrencyControl=%v together with %v has concurrency control = %v: conditional publishes on it are not checked (stored whatever offset they expect)",
+			occ, with, p.log.IsConcurrencyControlEnabled()), Tag: "occ-setting-lost"})
 	}
 	// The message-processing loop is parked on its NATS channel; from now on it appends
 	// through the recording wrapper (pure delegation).
